@@ -449,3 +449,53 @@ Proof.
   { unfold keys. rewrite map_map. cbn. reflexivity. }
   split; [exact K | split; [reflexivity|]]. intros W. unfold wfb in *. cbn [s_td s_nt]. rewrite K. exact W.
 Qed.
+
+(* ------------------------------------------------------------------------------------------------ indexed assignment *)
+Definition wstep (written : nat -> nat -> nat) (d : list (string * tval)) (kv : string * tval) : list (string * tval) :=
+  match lookup (fst kv) d, snd kv with
+  | Some (VTensor i), VTensor j => upd (fst kv) (VTensor (written i j)) d
+  | Some (VColl i), VColl j => upd (fst kv) (VColl (written i j)) d
+  | _, v => upd (fst kv) v d
+  end.
+
+Lemma write_at_fold : forall written dst src, write_at written dst src = fold_left (wstep written) src dst.
+Proof. reflexivity. Qed.
+
+Lemma keys_wstep : forall written d kv x, In x (keys (wstep written d kv)) <-> In x (keys d) \/ x = fst kv.
+Proof.
+  intros written d [k v] x. unfold wstep. cbn [fst snd].
+  destruct (lookup k d) as [[i|i|i]|]; destruct v; apply keys_upd.
+Qed.
+
+Lemma keys_write_at : forall written src dst x,
+  In x (keys (write_at written dst src)) <-> In x (keys dst) \/ In x (keys src).
+Proof.
+  intros written src. induction src as [|kv r IH]; intros dst x; rewrite write_at_fold; cbn [fold_left].
+  - cbn. tauto.
+  - rewrite <- write_at_fold. rewrite IH. rewrite keys_wstep. cbn [keys map]. fold (keys r).
+    cbn [In]. split; intros H; [destruct H as [[H|H]|H]; auto | destruct H as [H|[H|H]]; auto].
+Qed.
+
+(* tc[idx] = value with a tensorclass value keeps "every field in exactly one store": keys the value holds as tensors leave
+   self's non-tensor store and are written (or created) in the tensordict part *)
+Theorem setitem_wf : forall written fields s same val s',
+  wfb fields s = true -> wfb fields val = true ->
+  setitem written false s (IVTc same val) = SOk s' -> wfb fields s' = true.
+Proof.
+  intros written fields s same val s' W Wv H. cbn in H.
+  destruct (negb same && negb (subset (keys (s_td s) ++ keys (s_nt s)) (keys (s_td val) ++ keys (s_nt val))
+                                && subset (keys (s_td val) ++ keys (s_nt val)) (keys (s_td s) ++ keys (s_nt s)))); [discriminate|].
+  inversion H. subst. clear H.
+  pose proof (wfb_cases fields s W) as Wc. apply wfb_inv in W. destruct W as [_ [W2 W3]].
+  apply wfb_inv in Wv. destruct Wv as [_ [V2 _]].
+  apply wfb_intro; cbn [s_td s_nt].
+  - intros f Hf. rewrite keys_write_at.
+    rewrite (keys_filter _ (fun k => negb (mem k (keys (s_td val))))).
+    specialize (Wc f Hf). destruct (mem f (keys (s_td val))) eqn:M.
+    + left. split; [right; apply mem_In; exact M | intros [_ X]; discriminate].
+    + apply mem_false_In in M. destruct Wc as [[A B]|[A B]].
+      * left. split; [left; exact A | intros [X _]; contradiction].
+      * right. split; [intros [X|X]; contradiction | split; [exact B | reflexivity]].
+  - intros x Hx. apply keys_write_at in Hx. destruct Hx as [Hx|Hx]; auto.
+  - intros x Hx. apply (keys_filter _ (fun k => negb (mem k (keys (s_td val))))) in Hx. destruct Hx as [Hx _]. auto.
+Qed.
